@@ -54,7 +54,7 @@ theorem C13_weekly_subset_daily' (start end_ : Int) (s : String) (pre : Bool) (l
   C13_weekly_subset_daily start end_ s pre l h
 
 /-- every end-of-month instant is a daily instant -/
-theorem C13_eom_subset_daily (start end_ : Int) (pre : Bool) (h0 : 0 ≤ dayOf start) :
+theorem C13_eom_subset_daily (start end_ : Int) (pre : Bool) (h0 : M0 ≤ dayOf start) :
     ∀ x ∈ eomRebalances start end_ pre, x ∈ dailyRebalances start end_ pre := by
   intro x hx
   rw [eom_general start end_ pre h0] at hx
@@ -64,7 +64,7 @@ theorem C13_eom_subset_daily (start end_ : Int) (pre : Bool) (h0 : 0 ≤ dayOf s
   refine List.mem_map.2 ⟨d, ?_, rfl⟩
   rw [mem_filter_daysFrom]
   have hle := hiOf_le start end_
-  have hd0 : 0 ≤ d := by omega
+  have hd0 : M0 ≤ d := by omega
   exact ⟨hd.1, by omega, ((isBMonthEnd_char hd0).1 hd.2.2).1⟩
 
 /-! ## every instant lies in the range -/
@@ -93,7 +93,7 @@ theorem C13_in_range_daily (start end_ : Int) (pre : Bool) (x : Int) (hx : x ∈
   rw [dayOf_stamp]
   exact ⟨hd.1, by omega⟩
 
-theorem C13_in_range_eom (start end_ : Int) (pre : Bool) (h0 : 0 ≤ dayOf start) (x : Int)
+theorem C13_in_range_eom (start end_ : Int) (pre : Bool) (h0 : M0 ≤ dayOf start) (x : Int)
     (hx : x ∈ eomRebalances start end_ pre) :
     dayOf start ≤ dayOf x ∧ dayOf x ≤ dayOf end_ ∧ dayOf x * 86400 + todOf start ≤ end_ := by
   rw [eom_general start end_ pre h0] at hx
@@ -107,7 +107,7 @@ theorem C13_in_range_eom (start end_ : Int) (pre : Bool) (h0 : 0 ≤ dayOf start
 /-- C13: every weekly / daily / end-of-month instant lies on a date of the range -/
 theorem C13_in_range (start end_ : Int) (s : String) (pre : Bool) (x : Int)
     (hx : (∃ l, weeklyRebalances start end_ s pre = .ok l ∧ x ∈ l) ∨ x ∈ dailyRebalances start end_ pre ∨
-      (0 ≤ dayOf start ∧ x ∈ eomRebalances start end_ pre)) :
+      (M0 ≤ dayOf start ∧ x ∈ eomRebalances start end_ pre)) :
     dayOf start ≤ dayOf x ∧ dayOf x ≤ dayOf end_ := by
   rcases hx with ⟨l, hl, hx⟩ | hx | ⟨h0, hx⟩
   · have := C13_in_range_weekly start end_ s pre l hl x hx; exact ⟨this.1, this.2.1⟩
@@ -244,7 +244,7 @@ theorem findMonth_lbd (k : Nat) : (findMonth (lastBDayOfMonth k (monthStart k)))
   rw [this]
 
 /-- two distinct end-of-month instants lie in different months -/
-theorem C13_eom_distinct_months (start end_ : Int) (pre : Bool) (h0 : 0 ≤ dayOf start) (x y : Int)
+theorem C13_eom_distinct_months (start end_ : Int) (pre : Bool) (h0 : M0 ≤ dayOf start) (x y : Int)
     (hx : x ∈ eomRebalances start end_ pre) (hy : y ∈ eomRebalances start end_ pre) (hne : x ≠ y) :
     (findMonth (dayOf x)).1 ≠ (findMonth (dayOf y)).1 := by
   rw [eom_general start end_ pre h0] at hx hy
@@ -253,27 +253,27 @@ theorem C13_eom_distinct_months (start end_ : Int) (pre : Bool) (h0 : 0 ≤ dayO
   rw [mem_filter_daysFrom] at hd1 hd2
   rw [dayOf_stamp, dayOf_stamp]
   intro hm
-  have e1 := (isBMonthEnd_iff_lbd (by omega : 0 ≤ d1)).1 hd1.2.2
-  have e2 := (isBMonthEnd_iff_lbd (by omega : 0 ≤ d2)).1 hd2.2.2
+  have e1 := (isBMonthEnd_iff_lbd (by omega : M0 ≤ d1)).1 hd1.2.2
+  have e2 := (isBMonthEnd_iff_lbd (by omega : M0 ≤ d2)).1 hd2.2.2
   rw [hm] at e1
   exact hne (by rw [e1, ← e2])
 
 /-- every instant of the end-of-month schedule is the stamped last business day of its own month -/
-theorem C13_eom_is_last (start end_ : Int) (pre : Bool) (h0 : 0 ≤ dayOf start) (x : Int)
+theorem C13_eom_is_last (start end_ : Int) (pre : Bool) (h0 : M0 ≤ dayOf start) (x : Int)
     (hx : x ∈ eomRebalances start end_ pre) :
     x = stamp pre (lastBDayOfMonth (findMonth (dayOf x)).1 (monthStart (findMonth (dayOf x)).1)) := by
   rw [eom_general start end_ pre h0] at hx
   obtain ⟨d, hd, rfl⟩ := List.mem_map.1 hx
   rw [mem_filter_daysFrom] at hd
   rw [dayOf_stamp]
-  have e := (isBMonthEnd_iff_lbd (by omega : 0 ≤ d)).1 hd.2.2
+  have e := (isBMonthEnd_iff_lbd (by omega : M0 ≤ d)).1 hd.2.2
   unfold lbd at e
   rw [← e]
 
 /-- a month `k` whose last business day `L` lies in the range (`dayOf start ≤ L`, and `L` at the start's time of
 day is `≤ end`) contributes exactly one instant: `stamp pre L` is scheduled, lies in month `k`, and is the only
 scheduled instant of month `k`. -/
-theorem C13_eom_month_unique (start end_ : Int) (pre : Bool) (h0 : 0 ≤ dayOf start) (k : Nat)
+theorem C13_eom_month_unique (start end_ : Int) (pre : Bool) (h0 : M0 ≤ dayOf start) (k : Nat)
     (hlo : dayOf start ≤ lastBDayOfMonth k (monthStart k))
     (hhi : lastBDayOfMonth k (monthStart k) * 86400 + todOf start ≤ end_) :
     stamp pre (lastBDayOfMonth k (monthStart k)) ∈ eomRebalances start end_ pre ∧
@@ -294,7 +294,7 @@ theorem C13_eom_month_unique (start end_ : Int) (pre : Bool) (h0 : 0 ≤ dayOf s
 /-- **C13 (end of month: one per month).** Distinct instants lie in different months; a month contributes an
 instant iff its last business day lies in the range, and then exactly that one.  (With `todOf start ≤ todOf end`
 the condition `L * 86400 + todOf start ≤ end` is `L ≤ dayOf end`.) -/
-theorem C13_eom_one_per_month (start end_ : Int) (pre : Bool) (h0 : 0 ≤ dayOf start)
+theorem C13_eom_one_per_month (start end_ : Int) (pre : Bool) (h0 : M0 ≤ dayOf start)
     (htod : todOf start ≤ todOf end_) :
     (∀ x ∈ eomRebalances start end_ pre, ∀ y ∈ eomRebalances start end_ pre, x ≠ y →
       (findMonth (dayOf x)).1 ≠ (findMonth (dayOf y)).1) ∧
@@ -334,14 +334,14 @@ month ends are daily instants; hypotheses of the subset lemmas hold -/
 example :
     let start : Int := 18316 * 86400 + 32400
     let end_ : Int := 18352 * 86400 + 61200
-    todOf start ≤ todOf end_ ∧ 0 ≤ dayOf start ∧
+    todOf start ≤ todOf end_ ∧ M0 ≤ dayOf start ∧
     eomRebalances start end_ false = [18320 * 86400 + 75600, 18352 * 86400 + 75600] ∧
     (18320 * 86400 + 75600 ∈ dailyRebalances start end_ false) ∧
     (18352 * 86400 + 75600 ∈ dailyRebalances start end_ false) ∧
     (18318 * 86400 + 75600 ∈ dailyRebalances start end_ false) ∧
-    -- the two instants lie in February (month 601) and March (month 602) 2020
-    (findMonth (dayOf (18320 * 86400 + 75600))).1 = 601 ∧ (findMonth (dayOf (18352 * 86400 + 75600))).1 = 602 ∧
-    lastBDayOfMonth 601 (monthStart 601) = 18320 ∧ lastBDayOfMonth 602 (monthStart 602) = 18352 := by
+    -- the two instants lie in February (month 5041) and March (month 5042) 2020
+    (findMonth (dayOf (18320 * 86400 + 75600))).1 = 5041 ∧ (findMonth (dayOf (18352 * 86400 + 75600))).1 = 5042 ∧
+    lastBDayOfMonth (findMonth 18320).1 (findMonth 18320).2 = 18320 ∧ lastBDayOfMonth (findMonth 18352).1 (findMonth 18352).2 = 18352 := by
   refine ⟨by decide, by decide, by decide +kernel, by decide +kernel, by decide +kernel, by decide +kernel,
     by decide +kernel, by decide +kernel, by decide +kernel, by decide +kernel⟩
 
